@@ -107,6 +107,9 @@ def gen_grid(rng, valid=False):
     ext = [rng.choice([dyadic(rng, 0.25, 12, 3) or 1.0, float(rng.randint(1, 9)), rng.choice([0.7, 3.3])]) for _ in range(2)]
     end = [start[0] + ext[0], start[1] + ext[1]]
     u = rng.random()
+    if valid and u < 0.08:  # one reversed axis (accepted by the constructor)
+        k = rng.randint(0, 1)
+        end[k] = start[k] - ext[k]
     if not valid and u < 0.05:
         end = None
     elif not valid and u < 0.10:
@@ -358,8 +361,19 @@ class C20(Property):
         with abtem.config.set({"precision": prec}):
             sc = grid_scan(c)
             tol = dict(rel=1e-10, ab=1e-10) if prec == "float64" else dict(rel=3e-6, ab=3e-6)
-            arr = np.asarray(sc.get_positions())
+            rev = [c["end"][i] < c["start"][i] for i in range(2)]
+            try:
+                arr = np.asarray(sc.get_positions())
+            except ValueError as e:
+                # recorded finding: only if re-derived - a reversed axis, sampling given, a negative computed number of positions
+                if any(rev) and c["gpts"] is None and c["sampling"] is not None and any(r and n < 0 for r, n in zip(rev, sc.gpts)):
+                    ctx.violation("gridscan-reversed-axis-with-sampling-raises-at-get-positions", c, dict(gpts=list(sc.gpts), error=repr(e)))
+                    return
+                raise
             n = sc.gpts
+            if any(rev) and c["gpts"] is None and c["sampling"] is not None and any(r and k == 0 for r, k in zip(rev, n)) and arr.size == 0:
+                ctx.violation("gridscan-reversed-axis-with-sampling-is-empty", c, dict(gpts=list(n)))
+                return
             if tuple(arr.shape) != (n[0], n[1], 2):
                 ctx.violation("gridscan-position-count", c, dict(shape=list(arr.shape), gpts=list(n)))
                 return
